@@ -123,3 +123,110 @@ Example C07_negative_threshold_differs :
   refine_numba ex_img ex_img [2; 2] [7; 9] (-(1 # 2)) 2 false [3; 2]
   <> KOk (refine_python ex_img ex_img [2; 2] [7; 9] (-(1 # 2)) 2 false [3; 2]).
 Proof. vm_compute. discriminate. Qed.
+
+(* ====================================================================================
+   Route T for the numba kernels.  Gen/com_kernels.v is REGENERATED from the current
+   source of trackpy/refine/center_of_mass.py by tools/py2coq_com.py on every check
+   (Python ast -> Coq, statement by statement, fail-closed; vocabulary Model/PyKernel.v):
+     numba_refine_2D / numba_refine_2D_c / numba_refine_2D_c_a / numba_refine_3D
+   are the Python functions _numba_refine_2D / _2D_c / _2D_c_a / _3D: arrays are nested
+   lists with total reads, floats are exact rationals, every division is guarded
+   (DivZero), `for` loops recurse on the range length, the per-feature iteration loop with
+   its `break` recurses on the iteration budget, results[feat, k] = v updates one cell of
+   a list of rows (CQ v, or CSqrt v for np.sqrt(v)); ecc is sliced out.
+
+   (5)-(8) say: called as refine_com_arr calls it -- mask columns  col d (mask_points radius)
+   = mask.nonzero()[d], N_mask their number, the size weights r2m / x2m, max_iterations
+   raised to >= 1 -- each generated kernel does exactly this ([feats] / [feat_step],
+   Model/COMGen.v): for feat = 0 .. N-1 in turn, run the kernel model refine_numba of
+   (1)-(4) from the start pixel coords[feat] on the same image (img2 / img3: the model's
+   view of the nested lists); if it divides by zero the whole call fails with DivZero;
+   otherwise write into row feat of results the cells listed by cells_2D / cells_2D_c /
+   cells_2D_c_a / cells_3D (position, mass, sqrt of size^2 column(s), signal, raw_mass at
+   the column numbers of the Python; every rational identical, not merely ==) and leave
+   every other cell of results as it was.  No hypothesis on the image, the coordinates,
+   the radii, the threshold or the results array. *)
+From TP Require Import Model.PyKernel Gen.com_kernels Model.COMGen Proofs.COMGen.
+
+(* (5) _numba_refine_2D  (2-D, characterize=False) *)
+Theorem C07_generated_2D : forall image rawpix rY rX coords N max_iterations thresh sY sX results,
+  let radius := [rY; rX] in
+  let mpts := mask_points radius in
+  numba_refine_2D image rY rX coords N (Z.max 1 max_iterations) thresh sY sX
+                  (col 0 mpts) (col 1 mpts) (Z.of_nat (length mpts)) results =
+  feats (feat_step (refine_numba (img2 image) rawpix radius [sY; sX] thresh max_iterations false)
+                   (fun feat => [get2 coords feat 0; get2 coords feat 1]) cells_2D)
+        (Z.to_nat N) 0 results.
+Proof. exact gen_2D_is_model. Qed.
+Print Assumptions C07_generated_2D.
+
+(* (6) _numba_refine_2D_c  (2-D, characterize=True, radius[0] == radius[1]) *)
+Theorem C07_generated_2D_c : forall raw_image image rY rX coords N max_iterations thresh sY sX cmask smask results,
+  rY = rX ->
+  let radius := [rY; rX] in
+  let mpts := mask_points radius in
+  numba_refine_2D_c raw_image image rY rX coords N (Z.max 1 max_iterations) thresh sY sX
+                    (col 0 mpts) (col 1 mpts) (Z.of_nat (length mpts)) (r2m radius) cmask smask results =
+  feats (feat_step (refine_numba (img2 image) (img2 raw_image) radius [sY; sX] thresh max_iterations true)
+                   (fun feat => [get2 coords feat 0; get2 coords feat 1]) cells_2D_c)
+        (Z.to_nat N) 0 results.
+Proof. exact gen_2D_c_is_model. Qed.
+Print Assumptions C07_generated_2D_c.
+
+(* (7) _numba_refine_2D_c_a  (2-D, characterize=True, radius[0] != radius[1]) *)
+Theorem C07_generated_2D_c_a : forall raw_image image rY rX coords N max_iterations thresh sY sX cmask smask results,
+  rY <> rX ->
+  let radius := [rY; rX] in
+  let mpts := mask_points radius in
+  numba_refine_2D_c_a raw_image image rY rX coords N (Z.max 1 max_iterations) thresh sY sX
+                      (col 0 mpts) (col 1 mpts) (Z.of_nat (length mpts)) (x2m radius 0) (x2m radius 1) cmask smask results =
+  feats (feat_step (refine_numba (img2 image) (img2 raw_image) radius [sY; sX] thresh max_iterations true)
+                   (fun feat => [get2 coords feat 0; get2 coords feat 1]) cells_2D_c_a)
+        (Z.to_nat N) 0 results.
+Proof. exact gen_2D_c_a_is_model. Qed.
+Print Assumptions C07_generated_2D_c_a.
+
+(* (8) _numba_refine_3D  (3-D; characterize and isotropic = (radiusX == radiusY and radiusX == radiusZ)
+   are decided inside the kernel: all four combinations) *)
+Theorem C07_generated_3D : forall raw_image image rZ rY rX coords N max_iterations thresh characterize sZ sY sX results,
+  let radius := [rZ; rY; rX] in
+  let mpts := mask_points radius in
+  numba_refine_3D raw_image image rZ rY rX coords N (Z.max 1 max_iterations) thresh characterize sZ sY sX
+                  (col 0 mpts) (col 1 mpts) (col 2 mpts) (Z.of_nat (length mpts))
+                  (r2m radius) (x2m radius 0) (x2m radius 1) (x2m radius 2) results =
+  feats (feat_step (refine_numba (img3 image) (img3 raw_image) radius [sZ; sY; sX] thresh max_iterations characterize)
+                   (fun feat => [get2 coords feat 0; get2 coords feat 1; get2 coords feat 2])
+                   (cells_3D characterize (isotropic radius)))
+        (Z.to_nat N) 0 results.
+Proof. exact gen_3D_is_model. Qed.
+Print Assumptions C07_generated_3D.
+
+(* (9) With (1): for a feature whose visited windows are all bright, the row a generated
+   kernel writes is the row of the reference engine refine_python (= _refine). *)
+Theorem C07_generated_row_is_reference_row :
+  forall pix rawpix radius shape thresh max_iterations characterize start cells feat results,
+  (0 <= thresh)%Q -> (2 <= length radius)%nat -> Forall (fun r => 1 <= r) radius ->
+  ref_nonzero pix radius shape thresh (binary_mask radius) (pred (iters_of max_iterations)) (start feat) = true ->
+  feat_step (refine_numba pix rawpix radius shape thresh max_iterations characterize) start cells feat results =
+  Ok (write_cells results feat
+        (cells (refine_python pix rawpix radius shape thresh max_iterations characterize (start feat)))).
+Proof. exact generated_row_is_reference_row. Qed.
+Print Assumptions C07_generated_row_is_reference_row.
+
+(* non-vacuity: the generated 2-D kernels run on the 7x9 image of the examples above
+   (two features, limit 2: the first walks and is stopped by the limit, mass 529) *)
+Definition ex_arr : list (list Z) :=
+  map (fun y => map (fun x => ex_img [y; x]) (zrange 9)) (zrange 7).
+
+Example C07_generated_2D_runs :
+  numba_refine_2D ex_arr 2 2 [[3; 2]; [3; 6]] 2 2 (3 # 5) 7 9
+                  (col 0 (mask_points [2; 2])) (col 1 (mask_points [2; 2])) 13 [[CNone; CNone; CNone]; [CNone; CNone; CNone]]
+  = Ok [[CQ (1601 # 529); CQ (2003 # 529); CQ 529]; [CQ (9350 # 3112); CQ (20222 # 3112); CQ 3112]].
+Proof. vm_compute. reflexivity. Qed.
+
+Example C07_generated_2D_c_a_runs :
+  numba_refine_2D_c_a ex_arr ex_arr 2 1 [[3; 2]] 1 3 (3 # 5) 7 9
+                      (col 0 (mask_points [2; 1])) (col 1 (mask_points [2; 1])) 7
+                      (x2m [2; 1] 0) (x2m [2; 1] 1) [] [] [repeat CNone 8]
+  = Ok [[CQ (298 # 96); CQ (218 # 96); CQ 96; CSqrt (240 # 96); CSqrt (72 # 96); CNone; CQ 31; CQ 96]].
+Proof. vm_compute. reflexivity. Qed.
